@@ -7,6 +7,9 @@
 #include "vf/eigen_assert.hpp"
 #include <Eigen/Core>
 #include <Spectra/Util/SimpleRandom.h>
+#include <Spectra/SymEigsSolver.h>
+#include <Spectra/HermEigsSolver.h>
+#include <Spectra/GenEigsSolver.h>
 #include "vf/runner.hpp"
 #include <complex>
 #include <thread>
@@ -211,13 +214,107 @@ static void state_case(vf::Draw& d, vf::Case& c)
     VF_CHECK(got >= 1 && got <= (long) M - 1, "degenerate_state", "state " << got);
 }
 
+// "Hence default-initialised solvers are reproducible across runs, platforms and threads": the start vector that init() (no argument) hands to
+// the operator is recorded for solvers of a drawn size in the calling thread and in threads started one after another and concurrently.
+// All recordings of one (solver class, n) must be bit-identical. Which seed the library uses is its own business (not asserted).
+template <typename S>
+struct RecordingOp
+{
+    using Scalar = S;
+    Eigen::Index n;
+    mutable std::vector<S> first;
+    mutable bool have = false;
+    Eigen::Index rows() const { return n; }
+    Eigen::Index cols() const { return n; }
+    void perform_op(const S* x, S* y) const
+    {
+        if (!have)
+        {
+            first.assign(x, x + n);
+            have = true;
+        }
+        for (Eigen::Index i = 0; i < n; i++)
+            y[i] = x[i] * S(typename Eigen::NumTraits<S>::Real(1 + i % 5));
+    }
+};
+template <typename S, typename MakeAndInit>
+static std::vector<S> default_start(Eigen::Index n, MakeAndInit mk)
+{
+    RecordingOp<S> op;
+    op.n = n;
+    mk(op);
+    return op.first;
+}
+template <typename S, typename MakeAndInit>
+static void default_start_case(vf::Draw& d, vf::Case& c, const char* name, MakeAndInit mk)
+{
+    const Eigen::Index n = (Eigen::Index) d.range("n", 4, 40);
+    const Eigen::Index n_other = (Eigen::Index) d.range("n_other", 4, 60);
+    const int nthreads = (int) d.range("threads", 1, 4);
+    const bool concurrent = d.flag("concurrent");
+    {
+        std::ostringstream os;
+        os << "default start vector of " << name << " n=" << n << ", " << nthreads << (concurrent ? " concurrent" : " consecutive") << " thread(s), another solver of size " << n_other << " initialised in between";
+        c.add_desc(os.str());
+    }
+    c.cls("default_start_vector");
+    c.cls(std::string("default_start_vector/") + name);
+    c.nontrivial = true;
+    std::vector<S> base = default_start<S>(n, mk);
+    VF_CHECK((Eigen::Index) base.size() == n, "default_start_not_seen", name << ": init() did not apply the operator");
+    std::vector<std::vector<S>> got((size_t) nthreads);
+    auto job = [&](int t) {
+        (void) default_start<S>(n_other, mk);   // another size first: a cached prefix / shared generator would show
+        got[(size_t) t] = default_start<S>(n, mk);
+    };
+    if (concurrent)
+    {
+        std::vector<std::thread> th;
+        for (int t = 0; t < nthreads; t++)
+            th.emplace_back(job, t);
+        for (auto& x : th)
+            x.join();
+    }
+    else
+        for (int t = 0; t < nthreads; t++)
+        {
+            std::thread x(job, t);
+            x.join();
+        }
+    std::vector<S> again = default_start<S>(n, mk);
+    got.push_back(again);
+    for (size_t t = 0; t < got.size(); t++)
+    {
+        bool same = got[t].size() == base.size() && std::memcmp(got[t].data(), base.data(), base.size() * sizeof(S)) == 0;
+        VF_CHECK(same, "default_start_not_reproducible", name << " n=" << n << ": the default start vector " << (t + 1 == got.size() ? "of a later call in the calling thread" : "in another thread")
+                                                               << " differs from the one of the first call (hidden global / per-thread generator state)");
+    }
+}
+static void default_start_dispatch(vf::Draw& d, vf::Case& c)
+{
+    int k = (int) d.range("solver", 0, 3);
+    switch (k)
+    {
+        case 0:
+            return default_start_case<double>(d, c, "SymEigsSolver<double>", [](RecordingOp<double>& op) { Spectra::SymEigsSolver<RecordingOp<double>> e(op, 1, 3); e.init(); });
+        case 1:
+            return default_start_case<float>(d, c, "SymEigsSolver<float>", [](RecordingOp<float>& op) { Spectra::SymEigsSolver<RecordingOp<float>> e(op, 1, 3); e.init(); });
+        case 2:
+            return default_start_case<std::complex<double>>(d, c, "HermEigsSolver<complex<double>>", [](RecordingOp<std::complex<double>>& op) { Spectra::HermEigsSolver<RecordingOp<std::complex<double>>> e(op, 1, 3); e.init(); });
+        default:
+            return default_start_case<double>(d, c, "GenEigsSolver<double>", [](RecordingOp<double>& op) { Spectra::GenEigsSolver<RecordingOp<double>> e(op, 1, 4); e.init(); });
+    }
+}
+
 static void run_case(vf::Draw& d, vf::Case& c)
 {
-    int mode = (int) d.range("mode", 0, 2);
+    int mode = (int) d.range("mode", 0, 3);
     if (mode == 1)
         return state_case(d, c);
     if (mode == 2)
         return threads_case(d, c);
+    if (mode == 3)
+        return default_start_dispatch(d, c);
     int type = (int) d.range("type", 0, 5);
     switch (type)
     {
